@@ -117,11 +117,93 @@ def checkCnfHasher (kvs okv : List (String × String)) (rhs : String) : String :
         return s!"FAIL SPEC models {s1} and {s2} have different residual formulas but the same hash {h1} (prime product fits in 128 bits)"
   return s!"ok nontrivial={if states.length > 2 then 1 else 0}"
 
+/-- `kind=book`: partial-model and variable-set bookkeeping.  Specification: a partial model is
+a partial function (last write wins, `unset` erases), a variable set is a set; every observer
+is the obvious function of those.  Model: the mirrored `PartialModel` / `VarSet`. -/
+def checkCnfBook (kvs okv : List (String × String)) : String := Id.run do
+  let some n := (lookup kvs "n").bind parseNat? | return "FAIL PARSE n"
+  let cmds := ((lookup kvs "cmds").getD "").splitOn ","
+  let obs := ((lookup okv "obs").getD "").splitOn ","
+  if cmds.length != obs.length then return "FAIL PARSE book lengths"
+  -- reference state: two partial functions, two duplicate-free ascending lists
+  let mut pf : List (List (Option Bool)) := [List.replicate n none, List.replicate n none]
+  let mut vs : List (List Nat) := [[], []]
+  let mut pm : List CnfUtil.PartialModel := [CnfUtil.PartialModel.new n, CnfUtil.PartialModel.new n]
+  let mut ms : List CnfUtil.VarSet := [CnfUtil.VarSet.new, CnfUtil.VarSet.newWithNumVars n]
+  let showPf (f : List (Option Bool)) : String :=
+    String.ofList (f.map fun o => match o with | none => 'n' | some true => 't' | some false => 'f')
+  let showLits (ls : List (Nat × Bool)) : String :=
+    ".".intercalate (ls.map fun (x, b) => (if b then "p" else "n") ++ toString x)
+  let showNats (l : List Nat) : String := ".".intercalate (l.map toString)
+  let iterOf (f : List (Option Bool)) : List (Nat × Bool) :=
+    (f.zipIdx.filterMap fun (o, i) => if o == some false then some (i, false) else none) ++
+    (f.zipIdx.filterMap fun (o, i) => if o == some true then some (i, true) else none)
+  let insertS (l : List Nat) (v : Nat) : List Nat := if l.contains v then l else (l.filter (· < v)) ++ [v] ++ (l.filter (· > v))
+  let bit (b : Bool) : String := if b then "1" else "0"
+  for ((c, o), step) in (cmds.zip obs).zipIdx do
+    let some [ob, k, v, bv] := (c.splitOn ".").mapM String.toNat? | return "FAIL PARSE book command"
+    let b := bv == 1
+    -- update reference and model
+    if k ≤ 2 then
+      pf := pf.set ob ((pf.getD ob []).set v (some b))
+      pm := pm.set ob ((pm.getD ob default).set v b)
+    else if k == 3 then
+      pf := pf.set ob ((pf.getD ob []).set v none)
+      pm := pm.set ob ((pm.getD ob default).unset v)
+    else if k ≤ 5 then
+      vs := vs.set ob (insertS (vs.getD ob []) v)
+      ms := ms.set ob ((ms.getD ob default).insert v)
+    else if k == 6 then
+      vs := vs.set ob ((vs.getD ob []).filter (· != v))
+      ms := ms.set ob ((ms.getD ob default).remove v)
+    else
+      vs := vs.set ob ((vs.getD (1 - ob) []).foldl insertS (vs.getD ob []))
+      ms := ms.set ob ((ms.getD ob default).unionWith (ms.getD (1 - ob) default))
+    let fA := pf.getD 0 []
+    let fB := pf.getD 1 []
+    let s0 := vs.getD 0 []
+    let s1 := vs.getD 1 []
+    let fo := pf.getD ob []
+    let diff (f g : List (Option Bool)) : List (Nat × Bool) := (iterOf f).filter fun l => !(iterOf g).contains l
+    let want : List String := [
+      showPf fA, showPf fB, String.ofList (fA.map fun o => if o.isSome then '1' else '0'),
+      showLits (iterOf fA), showLits (iterOf fB), showLits (diff fA fB), showLits (diff fB fA),
+      bit (fo.getD v none == some b) ++ bit (fo.getD v none == some (!b)) ++ "0" ++ "1",
+      "11",
+      showNats s0, showNats s1, showNats (s1.foldl insertS s0), showNats (s0.filter (!s1.contains ·)),
+      showNats (s0.filter (s1.contains ·)), showNats (s0.filter (!s1.contains ·)), showNats (s0.filter (s1.contains ·)),
+      toString s0.length,
+      bit s0.isEmpty ++ bit (s1.contains v) ++ bit (s0 == s1) ++ bit (fA == fB)]
+    let got := o.splitOn "/"
+    if got.length != want.length then return s!"FAIL PARSE book observation #{step}"
+    let names := ["get(A)", "get(B)", "is_set(A)", "assignment_iter(A)", "assignment_iter(B)", "difference(A,B)",
+      "difference(B,A)", "lit_implied/lit_neg_implied/implies_true/implies_false", "from_assignments(get) == model",
+      "iter(S)", "iter(T)", "union", "minus", "intersect_varset", "difference", "intersect", "len", "is_empty/contains/==/=="]
+    for ((g, w), nm) in (got.zip want).zip names do
+      if g != w then return s!"FAIL SPEC after command #{step} ({c}): {nm} is {g}, by definition {w}"
+    -- mirrored model
+    let mA := pm.getD 0 default
+    let mB := pm.getD 1 default
+    let t0 := ms.getD 0 default
+    let t1 := ms.getD 1 default
+    let mlits (ls : List Lit) : String := ".".intercalate (ls.map fun l => (if l.pol then "p" else "n") ++ toString l.var)
+    let mwant : List (String × String) := [
+      (String.ofList ((List.range n).map fun x => match mA.get x with | none => 'n' | some true => 't' | some false => 'f'), got.getD 0 ""),
+      (mlits mA.assignmentIter, got.getD 3 ""), (mlits mB.assignmentIter, got.getD 4 ""),
+      (mlits (mA.difference mB), got.getD 5 ""), (mlits (mB.difference mA), got.getD 6 ""),
+      (showNats t0.iter, got.getD 9 ""), (showNats t1.iter, got.getD 10 ""), (showNats (t0.union t1).iter, got.getD 11 ""),
+      (showNats (t0.minus t1).iter, got.getD 12 ""), (showNats (t0.intersectVarset t1).iter, got.getD 13 ""),
+      (showNats (t0.difference t1), got.getD 14 ""), (showNats (t0.intersect t1), got.getD 15 ""), (toString t0.len, got.getD 16 "")]
+    for (m, g) in mwant do
+      if m != g then return s!"FAIL MODEL bookkeeping after command #{step}: model {m} implementation {g}"
+  return s!"ok nontrivial={if cmds.length > 3 then 1 else 0}"
+
 def checkCnfLine (kvs : List (String × String)) (rhs : String) : String :=
   let okv := splitKV rhs
   match lookup kvs "kind" with
   | some "util" => if rhs.startsWith "panic:" then s!"FAIL SPEC a CNF utility panicked: {rhs}" else checkCnfUtil kvs okv
   | some "hasher" => checkCnfHasher kvs okv rhs
+  | some "book" => if rhs.startsWith "panic:" then s!"FAIL SPEC a bookkeeping operation panicked: {rhs}" else checkCnfBook kvs okv
   | _ => "FAIL PARSE kind"
 
 end Driver
